@@ -1,13 +1,14 @@
-(* Model/Pflag.v — the program's own flag parser (carapace-pflag v1.0.0 parseArgs / parseLongArg,
-   posix mode, long-form flags) and carapace's traverse (traverse.go) for ONE command, on the
-   long-form fragment: words are `--name`, `--name=value`, `--`, or do not start with a dash.
-   Shorthands, chains, nargs, custom delimiters, sub-command descent: exercised by the harness
-   (real traverse against real cobra), not in this model. *)
+(* Model/Pflag.v — the program's own flag parser (carapace-pflag v1.0.0 parseArgs / parseLongArg /
+   parseSingleShortArg, posix mode) and carapace's traverse (traverse.go) for ONE command.
+   Typed words: `--name`, `--name=value`, `--`, posix shorthand words (`-s`, chains `-abc`, `-svalue`,
+   `-s=value`), words not starting with a dash.  The word under the cursor: long form or plain
+   (a shorthand chain under the cursor, nargs, custom delimiters, non-posix mode and sub-command
+   descent are exercised by the harness — real traverse against real cobra — not in this model). *)
 From CV Require Import Base.Str.
 Local Open Scope nat_scope.
 
 Inductive kind := KBool | KCount | KStr | KList | KOpt.
-Record flag := mkFlag { fname : str; fkind : kind }.
+Record flag := mkFlag { fname : str; fkind : kind; fshort : str }.     (* shorthand: one byte, or empty *)
 (* NoOptDefVal <> "": bool, count and optional-argument flags never take the next word *)
 Definition takes_next (f : flag) : bool := match fkind f with KStr | KList => true | _ => false end.
 
@@ -40,6 +41,35 @@ Inductive presult := POk (s : pstate) | PErr.
 (* value for a flag given without one *)
 Definition noopt (f : flag) : str := match fkind f with KBool => B [116;114;117;101] | KCount => B [43;49] | _ => B [32] end.
 
+(* ---------- a posix shorthand word `-abc...` ---------- *)
+Definition find_short (fs : list flag) (c : ascii) : option flag := find (fun f => str_eqb (fshort f) [c]) fs.
+(* parseSingleShortArg repeated over the letters: the flags set by the word and, if its last
+   letter takes a value that is not attached, the flag left waiting for the next word *)
+Fixpoint chain (fs : list flag) (letters : str) : option (list (str * str) * option flag) :=
+  match letters with
+  | [] => Some ([], None)
+  | c :: ls =>
+    match find_short fs c with
+    | None => None                                                    (* unknown shorthand *)
+    | Some f =>
+      match ls with
+      | e :: v => if beq e (byte 61) && negb (match v with [] => true | _ => false end)
+                  then Some ([(fname f, v)], None)                    (* -f=arg *)
+                  else if takes_next f then Some ([(fname f, ls)], None)     (* -farg *)
+                  else match chain fs ls with                         (* arg was optional: go on with the next letter *)
+                       | Some (sets, pend) => Some ((fname f, noopt f) :: sets, pend)
+                       | None => None
+                       end
+      | [] => if takes_next f then Some ([], Some f) else Some ([(fname f, noopt f)], None)
+      end
+    end
+  end.
+Definition is_short_word (w : str) : bool :=
+  match w with
+  | c :: d :: _ => beq c (byte 45) && negb (beq d (byte 45))
+  | _ => false
+  end.
+
 Fixpoint pf_parse (fs : list flag) (interspersed : bool) (ws : list str) (st : pstate) : presult :=
   match ws with
   | [] => POk st
@@ -49,7 +79,16 @@ Fixpoint pf_parse (fs : list flag) (interspersed : bool) (ws : list str) (st : p
       pf_parse fs interspersed rest (mkP (p_args st) (Some (length (p_args st))) (p_sets st) true)
     else if negb (starts_dash w) || str_eqb w (B [45]) then
       pf_parse fs interspersed rest (mkP (p_args st ++ [w]) (p_dash st) (p_sets st) (negb interspersed))
-    else if negb (has_prefix w dash2) then PErr                      (* shorthand: outside the fragment *)
+    else if negb (has_prefix w dash2) then
+      match chain fs (drop 1 w) with
+      | None => PErr
+      | Some (sets, None) => pf_parse fs interspersed rest (mkP (p_args st) (p_dash st) (p_sets st ++ sets) false)
+      | Some (sets, Some f) =>
+        match rest with
+        | x :: rest' => pf_parse fs interspersed rest' (mkP (p_args st) (p_dash st) (p_sets st ++ sets ++ [(fname f, x)]) false)
+        | [] => PErr
+        end
+      end
     else
       let '(n, v) := long_parts w in
       match n with
@@ -85,6 +124,34 @@ Definition lookup_arg (fs : list flag) (w : str) : option (flag * str * option s
     end
   else None.
 
+(* lookupPosixShorthandArg: the flag a shorthand word ends in, and whether it already carries a value *)
+Fixpoint lookup_short_letters (fs : list flag) (letters : str) : option (flag * bool) :=
+  match letters with
+  | [] => None
+  | c :: ls =>
+    match find_short fs c with
+    | None => None
+    | Some f =>
+      match ls with
+      | [] => Some (f, false)                                          (* the last letter: no value yet *)
+      | e :: _ => if beq e (byte 61) then Some (f, true)               (* -f=... *)
+                  else if takes_next f then Some (f, true)             (* -farg *)
+                  else lookup_short_letters fs ls
+      end
+    end
+  end.
+(* the flag left waiting for its argument after the typed word w *)
+Definition pending_after (fs : list flag) (w : str) : option flag :=
+  if has_prefix w dash2 then
+    match lookup_arg fs w with
+    | Some (f, _, None) => if takes_next f then Some f else None
+    | _ => None
+    end
+  else match lookup_short_letters fs (drop 1 w) with
+       | Some (f, false) => if takes_next f then Some f else None
+       | _ => None
+       end.
+
 (* the running classification: words consumed, positionals seen, a flag still waiting for its argument *)
 Record tstate := mkT { t_inargs : list str; t_npos : nat; t_inflag : option flag; t_dash : bool }.
 Definition t0 : tstate := mkT [] 0 None false.
@@ -98,11 +165,8 @@ Fixpoint t_loop (fs : list flag) (il : bool) (ws : list str) (st : tstate) : tst
     | Some f => t_loop fs il rest (mkT (t_inargs st ++ [w]) (t_npos st) None false)          (* flag argument *)
     | None =>
       if str_eqb w dash2 then mkT (t_inargs st ++ w :: rest) (t_npos st) None true            (* dash *)
-      else if starts_dash w && (il || Nat.eqb (t_npos st) 0) then                             (* flag *)
-        let pending := match lookup_arg fs w with
-                       | Some (f, _, None) => if takes_next f then Some f else None
-                       | _ => None
-                       end in
+      else if starts_dash w && negb (str_eqb w (B [45])) && (il || Nat.eqb (t_npos st) 0) then   (* flag; a lone dash is a positional *)
+        let pending := pending_after fs w in
         t_loop fs il rest (mkT (t_inargs st ++ [w]) (t_npos st) pending false)
       else t_loop fs il rest (mkT (t_inargs st ++ [w]) (S (t_npos st)) None false)            (* positional *)
     end
